@@ -467,7 +467,23 @@ def k_transform(run, case, rng, work):
                       (kind, form, type(out[1]).__name__, out[1]), key="transform:%s-wrong-exception" % kind)
 
 
-KINDS = {"read": with_work(k_read), "write": with_work(k_write), "malformed": with_work(k_malformed),
+def k_cli(run, case):
+    """
+    The same conventions through the command line: evo_traj <tum|kitti|euroc> with and without a
+    --ref file of the same format, and evo_ape / evo_rpe on EuRoC pairs; every file named on the
+    command line must be read with the reader of the sub-command's format (C15's / C01's workload
+    executors; exports and stored values judged against the numbers written to the files).
+    """
+    if case.get("tool") == "ape":
+        from vmon.props import C01
+        C01.k_cli(run, case)
+    else:
+        from vmon.props import C15
+        C15.k_cli(run, case)
+    run.hit("command-line runs per file format judged")
+
+
+KINDS = {"cli": k_cli, "read": with_work(k_read), "write": with_work(k_write), "malformed": with_work(k_malformed),
          "transform": with_work(k_transform), "write_archive": with_work(k_write_archive)}
 
 
@@ -476,6 +492,11 @@ def main(run):
         KINDS["read"](run, run.case("read", i))
     for i in run.mine({"quick": 200, "thorough": 5000}[run.tier]):
         KINDS["write"](run, run.case("write", i))
+    for i in run.mine({"quick": 48, "thorough": 900}[run.tier]):
+        if i % 4 == 3:
+            k_cli(run, run.case("cli", i, tool="ape", fmt="euroc"))
+        else:
+            k_cli(run, run.case("cli", i, fmt=["tum", "kitti", "euroc"][i % 3], force={"use_ref": i % 2 == 0}))
     for i in run.mine({"quick": 120, "thorough": 3000}[run.tier]):
         KINDS["write_archive"](run, run.case("write_archive", i))
     # malformed: defect x format x every row/column position of small files
